@@ -236,4 +236,190 @@ theorem tree_search_raw_hit (root : Node) (hwf : WF root) (route : String) (h : 
 
 example : treeSearch exRawTree "/a//c" = some (2, [("x", "")]) ∧ lookupW ["a", ":x", "c"] exRawTree = some 2 := by decide
 
+/-! ### round 5c: a raw hit is not beaten -/
+
+/-- what a stored key that matches a raw list of at least two elements looks like from the node. -/
+theorem raw_decomp {n : Node} {t r : String} {rs : List String} {ks' : List String} {h' : H}
+    (hl : lookupW ks' n = some h') (hm : matchesRaw ks' (t :: r :: rs)) :
+    ∃ k' ks0' c', ks' = k' :: ks0' ∧ child n k' = some c' ∧ lookupW ks0' c' = some h' ∧ matchTok k' t = true ∧
+      matchesRaw ks0' (r :: rs) := by
+  have key : ∃ k' ks0', ks' = k' :: ks0' ∧ matchTok k' t = true ∧ matchesRaw ks0' (r :: rs) := by
+    rcases hm with hmr | ⟨ts, hts, hmr⟩
+    · obtain ⟨k, ks0, rfl, hk, hks⟩ := (matchesP_cons_iff _ _ _).mp hmr
+      exact ⟨k, ks0, rfl, hk, Or.inl hks⟩
+    · cases ts with
+      | nil => have := congrArg List.length hts; simp at this
+      | cons a as =>
+        simp only [List.cons_append, List.cons.injEq] at hts
+        obtain ⟨rfl, hts⟩ := hts
+        obtain ⟨k, ks0, rfl, hk, hks⟩ := (matchesP_cons_iff _ _ _).mp hmr
+        exact ⟨k, ks0, rfl, hk, Or.inr ⟨as, hts, hks⟩⟩
+  obtain ⟨k', ks0', rfl, hk, hmr'⟩ := key
+  simp only [lookupW] at hl
+  cases hc : child n k' with
+  | none => rw [hc] at hl; cases hl
+  | some c' =>
+    rw [hc] at hl
+    simp only [Option.bind_some] at hl
+    exact ⟨k', ks0', c', rfl, hc, hl, hk, hmr'⟩
+
+/-- **A raw hit is not beaten** (any iteration order of the maps): the key a successful raw search names matches the
+raw elements, carries exactly its bound segments, and NO other stored key that matches the raw elements is preferred
+to it — at the first segment where the two differ it is not the case that the named key has a variable and the other
+one a literal (literal children are tried first and a literal subtree that holds a match never fails). -/
+theorem next_raw_admissible (toks : List String) : toks ≠ [] → ∀ (n : Node), WF n → ∀ h ps, next toks n = some (h, ps) →
+    ∃ ks, lookupW ks n = some h ∧
+      ((matchesP ks toks = true ∧ ps = (binds ks toks).reverse) ∨
+       (∃ ts, toks = ts ++ [""] ∧ matchesP ks ts = true ∧ ps = (binds ks ts).reverse)) ∧
+      ∀ ks' h', lookupW ks' n = some h' → matchesRaw ks' toks → prefers ks ks' = true := by
+  induction toks with
+  | nil => intro h; exact absurd rfl h
+  | cons t rest ih =>
+    intro _ n hwf h ps hs
+    cases rest with
+    | nil =>
+      by_cases h0 : t = "" ∧ n.item.isSome = true
+      · obtain ⟨rfl, hi⟩ := h0
+        obtain ⟨x, hx⟩ := Option.isSome_iff_exists.mp hi
+        simp [next, hx] at hs
+        obtain ⟨rfl, rfl⟩ := hs
+        exact ⟨[], by simpa [lookupW] using hx, Or.inr ⟨[], rfl, by simp [matchesP], by simp [binds]⟩,
+          fun ks' _ _ _ => by cases ks' <;> simp [prefers]⟩
+      · have hn : next [t] n = forEach n fun k c =>
+            if matchTok k t then c.item.map (fun h => hit k t (h, [])) else none := by
+          simp only [next]
+          rw [if_neg (by simpa using h0)]
+        rw [hn] at hs
+        -- the child the hit came from, and — when it is a variable child — the failure of every literal child
+        have key : ∃ kc, (kc ∈ n.lits ∨ kc ∈ n.vars) ∧
+            (if matchTok kc.1 t then kc.2.item.map (fun h => hit kc.1 t (h, [])) else none) = some (h, ps) ∧
+            (isVar kc.1 = true → ∀ lc ∈ n.lits,
+              (if matchTok lc.1 t then lc.2.item.map (fun h => hit lc.1 t (h, [])) else none) = none) := by
+          rcases forEach_some hs with ⟨kc, hm, hp⟩ | ⟨hl, kc, hm, hp⟩
+          · refine ⟨kc, Or.inl hm, hp, ?_⟩
+            intro hv; have := hwf.lits_lit _ hm; rw [hv] at this; cases this
+          · exact ⟨kc, Or.inr hm, hp, fun _ => hl⟩
+        obtain ⟨kc, hm, hp, hlits⟩ := key
+        by_cases hmt : matchTok kc.1 t = true
+        · rw [if_pos hmt] at hp
+          cases hci : kc.2.item with
+          | none => rw [hci] at hp; cases hp
+          | some x =>
+            rw [hci] at hp
+            simp only [Option.map_some, Option.some.injEq] at hp
+            obtain ⟨e1, e2⟩ := hit_binds kc.1 t (x, []) [] [] (by simp [binds])
+            rw [hp] at e1 e2
+            simp only at e1
+            refine ⟨[kc.1], by simp [lookupW, child_of_mem hwf hm, hci, e1], Or.inl ⟨by simp [matchesP, hmt], e2⟩, ?_⟩
+            intro ks' h' hl' hmr'
+            cases ks' with
+            | nil => simp [prefers]
+            | cons k' ks0' =>
+              simp only [prefers]
+              by_cases hkk : kc.1 = k'
+              · simp only [hkk, if_true]
+              · simp only [hkk, if_false, Bool.not_eq_true', Bool.and_eq_false_iff, Bool.not_eq_false']
+                by_cases hv : isVar kc.1 = true
+                · right
+                  -- a literal k' with an item that matches t would have been found first
+                  cases hvk : isVar k' with
+                  | true => rfl
+                  | false =>
+                    exfalso
+                    have hmk : matchesP (k' :: ks0') [t] = true := by
+                      rcases hmr' with hm1 | ⟨ts, hts, hm1⟩
+                      · exact hm1
+                      · cases ts with
+                        | nil => simp [matchesP] at hm1
+                        | cons a as => have := congrArg List.length hts; simp at this
+                    obtain ⟨k2, ks2, he, hk2, hks2⟩ := (matchesP_cons_iff _ _ _).mp hmk
+                    simp only [List.cons.injEq] at he
+                    obtain ⟨rfl, rfl⟩ := he
+                    rw [matchesP_nil_iff] at hks2
+                    subst hks2
+                    simp only [lookupW] at hl'
+                    cases hc : child n k' with
+                    | none => rw [hc] at hl'; cases hl'
+                    | some c' =>
+                      rw [hc] at hl'
+                      simp only [Option.bind_some] at hl'
+                      rcases child_mem hc with ⟨_, hml⟩ | ⟨hv', _⟩
+                      · have := hlits hv (k', c') hml
+                        simp [hk2, hl'] at this
+                      · rw [hvk] at hv'; cases hv'
+                · left; simpa using hv
+        · rw [if_neg hmt] at hp; cases hp
+    | cons r rs =>
+      rw [next_cons_cons] at hs
+      have key : ∃ kc, (kc ∈ n.lits ∨ kc ∈ n.vars) ∧
+          (if matchTok kc.1 t then (next (r :: rs) kc.2).map (hit kc.1 t) else none) = some (h, ps) ∧
+          (isVar kc.1 = true → ∀ lc ∈ n.lits,
+            (if matchTok lc.1 t then (next (r :: rs) lc.2).map (hit lc.1 t) else none) = none) := by
+        rcases forEach_some hs with ⟨kc, hm, hp⟩ | ⟨hl, kc, hm, hp⟩
+        · refine ⟨kc, Or.inl hm, hp, ?_⟩
+          intro hv; have := hwf.lits_lit _ hm; rw [hv] at this; cases this
+        · exact ⟨kc, Or.inr hm, hp, fun _ => hl⟩
+      obtain ⟨kc, hm, hp, hlits⟩ := key
+      by_cases hmt : matchTok kc.1 t = true
+      · rw [if_pos hmt] at hp
+        cases hnx : next (r :: rs) kc.2 with
+        | none => rw [hnx] at hp; cases hp
+        | some x =>
+          rw [hnx] at hp
+          simp only [Option.map_some, Option.some.injEq] at hp
+          have hc := child_of_mem hwf hm
+          obtain ⟨ks0, hl0, hd, hpref0⟩ := ih (by simp) kc.2 (child_wf hwf hc) x.1 x.2 hnx
+          have hadm : ∀ ks' h', lookupW ks' n = some h' → matchesRaw ks' (t :: r :: rs) →
+              prefers (kc.1 :: ks0) ks' = true := by
+            intro ks' h' hl' hmr'
+            obtain ⟨k', ks0', c', rfl, hc', hl0', hk', hmr0'⟩ := raw_decomp hl' hmr'
+            simp only [prefers]
+            by_cases hkk : kc.1 = k'
+            · simp only [hkk, if_true]
+              have : c' = kc.2 := by rw [← hkk, hc] at hc'; exact (Option.some.inj hc').symm
+              subst this
+              exact hpref0 ks0' h' hl0' hmr0'
+            · simp only [hkk, if_false, Bool.not_eq_true', Bool.and_eq_false_iff, Bool.not_eq_false']
+              by_cases hv : isVar kc.1 = true
+              · right
+                cases hvk : isVar k' with
+                | true => rfl
+                | false =>
+                  exfalso
+                  rcases child_mem hc' with ⟨_, hml⟩ | ⟨hv', _⟩
+                  · have hnone := hlits hv (k', c') hml
+                    simp only [hk', if_true, Option.map_eq_none_iff] at hnone
+                    have hsome := (next_raw_isSome_iff (r :: rs) (by simp) c' (child_wf hwf hc')).mpr
+                      ⟨ks0', h', hl0', hmr0'⟩
+                    rw [hnone] at hsome; cases hsome
+                  · rw [hvk] at hv'; cases hv'
+              · left; simpa using hv
+          rcases hd with ⟨hm0, hb0⟩ | ⟨ts, hts, hm0, hb0⟩
+          · obtain ⟨e1, e2⟩ := hit_binds kc.1 t x ks0 (r :: rs) hb0
+            rw [hp] at e1 e2
+            simp only at e1 e2
+            exact ⟨kc.1 :: ks0, by simp [lookupW, hc, hl0, e1], Or.inl ⟨by simp [matchesP, hmt, hm0], e2⟩, hadm⟩
+          · obtain ⟨e1, e2⟩ := hit_binds kc.1 t x ks0 ts hb0
+            rw [hp] at e1 e2
+            simp only at e1 e2
+            exact ⟨kc.1 :: ks0, by simp [lookupW, hc, hl0, e1],
+              Or.inr ⟨t :: ts, by rw [hts]; rfl, by simp [matchesP, hmt, hm0], e2⟩, hadm⟩
+      · rw [if_neg hmt] at hp; cases hp
+
+/-- **`Tree.Search` with an arbitrary string, full statement**: a hit names a stored key that matches the raw
+elements, with exactly its bound segments, and that no other matching stored key beats (literal before variable at
+the first differing segment) — what the driver's raw-tree monitor checks. -/
+theorem tree_search_raw_admissible (root : Node) (hwf : WF root) (route : String) (h : H) (ps : Params)
+    (hs : treeSearch root route = some (h, ps)) :
+    rooted route = true ∧ ∃ ks, lookupW ks root = some h ∧
+      ((matchesP ks (toksOf route) = true ∧ ps = (binds ks (toksOf route)).reverse) ∨
+       (∃ ts, toksOf route = ts ++ [""] ∧ matchesP ks ts = true ∧ ps = (binds ks ts).reverse)) ∧
+      ∀ ks' h', lookupW ks' root = some h' → matchesRaw ks' (toksOf route) → prefers ks ks' = true := by
+  unfold treeSearch at hs
+  cases hr : rooted route with
+  | false => simp [hr] at hs
+  | true =>
+    simp only [hr, Bool.not_true, Bool.false_eq_true, if_false] at hs
+    exact ⟨rfl, next_raw_admissible _ (toksOf_ne_nil route) root hwf h ps hs⟩
+
 end GoZero.C09
